@@ -1017,7 +1017,20 @@ func (w *world) runHistory(pc poolCfg) {
 	defer w.pool.Stop()
 	w.viaFeed = pc.viaFeed
 	if w.viaFeed {
-		time.Sleep(2 * time.Millisecond) // let TxPool.loop read its initial head before the chain moves
+		// TxPool.loop reads its initial head before it takes the first event: post a sentinel (skipped by loop) and wait
+		// until it has been taken, so the chain does not move before loop knows where it started (no timing assumption)
+		w.chain.feed.Send(core.ChainHeadEvent{})
+		taken := false
+		for dl := time.Now().Add(60 * time.Second); time.Now().Before(dl); time.Sleep(20 * time.Microsecond) {
+			if w.pool.VerifHeadEventsQueued() == 0 {
+				taken = true
+				break
+			}
+		}
+		if !taken {
+			c.Count("feed/undecided-loop-not-started")
+			return
+		}
 	}
 	w.history = append(w.history, fmt.Sprintf("new AccountSlots=%d GlobalSlots=%d AccountQueue=%d GlobalQueue=%d PriceBump=%d NoLocals=%v PriceLimit=%d gaslimit=%d state=%s",
 		pc.as, pc.gs, pc.aq, pc.gq, pc.bump, pc.nolocals, gp, gasLimit, w.curToken(w.chain.head)))
@@ -1120,13 +1133,25 @@ func (w *world) runHistory(pc poolCfg) {
 				// chain.StateAt exactly once; after that any pool call blocks on pool.mu until the reset is finished.
 				n0 := w.chain.stateCalls()
 				w.chain.feed.Send(core.ChainHeadEvent{Block: nb.block})
-				applied = false
-				for dl := time.Now().Add(400 * time.Millisecond); time.Now().Before(dl); time.Sleep(20 * time.Microsecond) {
-					if w.chain.stateCalls() > n0 {
-						applied = true
+				// sentinel: an event without a block is skipped by loop(); loop handles one event at a time, so once the
+				// sentinel has been taken from the channel the real event has been processed completely (handled or
+				// ignored).  No timing assumption: the wait is only bounded by a generous deadline after which the case
+				// counts as undecided (never as a violation).
+				w.chain.feed.Send(core.ChainHeadEvent{})
+				drained := false
+				for dl := time.Now().Add(60 * time.Second); time.Now().Before(dl); time.Sleep(20 * time.Microsecond) {
+					if w.pool.VerifHeadEventsQueued() == 0 {
+						drained = true
 						break
 					}
 				}
+				if !drained {
+					c.Count("feed/undecided-event-not-taken")
+					return
+				}
+				// the sentinel was taken; the pool lock serialises us after a reset that is still finishing
+				w.pool.Stats()
+				applied = w.chain.stateCalls() > n0
 				desc = "event " + desc
 			} else {
 				panicked, pv = vh.CatchPanic(func() { w.pool.VerifReset(old.block.Header(), nb.block.Header()) })
